@@ -204,15 +204,33 @@ def run_harness(run, tier, seed, res, only_case=None):
         with open(errf.name, "w") as ef:
             p = subprocess.Popen(cmd, stdout=ef, stderr=subprocess.STDOUT, env=env,
                                  preexec_fn=os.setsid)
-            try:
-                rc = p.wait(timeout=timeout)
-            except subprocess.TimeoutExpired:
-                timed_out = True
+            # two wall-clock watchdogs, both only ever produce "inconclusive": the whole run, and a stall watchdog on the
+            # event stream (a case that neither ends nor is convicted by the in-process logical monitor)
+            stall_to = max(15 * per_case_to, 600)
+            t0 = time.time()
+            last_size, last_growth = -1, t0
+            rc = None
+            while True:
                 try:
-                    os.killpg(p.pid, signal.SIGKILL)
-                except ProcessLookupError:
+                    rc = p.wait(timeout=2)
+                    break
+                except subprocess.TimeoutExpired:
                     pass
-                rc = p.wait()
+                now = time.time()
+                try:
+                    sz = os.path.getsize(outf.name)
+                except OSError:
+                    sz = last_size
+                if sz != last_size:
+                    last_size, last_growth = sz, now
+                if now - t0 > timeout or now - last_growth > stall_to:
+                    timed_out = True
+                    try:
+                        os.killpg(p.pid, signal.SIGKILL)
+                    except ProcessLookupError:
+                        pass
+                    rc = p.wait()
+                    break
         events = []
         for line in open(outf.name, errors="replace"):
             line = line.strip()
